@@ -558,47 +558,295 @@ Section Nodes.
     destruct a; cbn [c_cases app default_with]; apply IH.
   Qed.
 
+  (* ---- the last block of a switch is dropped by the parser when it has no children ---- *)
+
+  Definition is_empty_block (n : node) : bool := match n with NBlock _ _ [] => true | _ => false end.
+
+  Lemma drop_snoc l y : drop_empty_tail (l ++ [y]) = if is_empty_block y then l else l ++ [y].
+  Proof.
+    unfold drop_empty_tail. rewrite rev_app_distr. cbn [rev app].
+    destruct y; try reflexivity. destruct child; [cbn [is_empty_block]; apply rev_involutive|reflexivity].
+  Qed.
+
+  Lemma drop_nil : drop_empty_tail [] = [].
+  Proof. reflexivity. Qed.
+
+  Lemma drop_cons x l : l <> [] -> drop_empty_tail (x :: l) = x :: drop_empty_tail l.
+  Proof.
+    intros H. destruct (exists_last H) as (l' & y & ->).
+    change (x :: l' ++ [y]) with ((x :: l') ++ [y]). rewrite !drop_snoc. destruct (is_empty_block y); reflexivity.
+  Qed.
+
+  Lemma drop_prefix l : exists t, l = drop_empty_tail l ++ t.
+  Proof.
+    destruct l as [|x l0 _] using rev_ind; [exists []; reflexivity|].
+    rewrite drop_snoc. destruct (is_empty_block x); [exists [x]; reflexivity|exists []; rewrite app_nil_r; reflexivity].
+  Qed.
+
+  Definition is_case_block (n : node) : bool := match n with NBlock BCase _ _ => true | _ => false end.
+
+  Lemma c_cases_blocks cl : forall cases, forallb is_case_block (c_cases compile cl cases) = true.
+  Proof. induction cases as [|a cases IH]; [reflexivity|]. destruct a; exact IH. Qed.
+
+  Lemma default_with_cases : forall l c w, forallb is_case_block l = true -> default_with wn l c w = Out c w None.
+  Proof.
+    induction l as [|n l IH]; intros c w H; [reflexivity|]. cbn [forallb] in H. apply andb_true_iff in H. destruct H as [H1 H2].
+    destruct n; try discriminate H1. destruct k; try discriminate H1. cbn [default_with]. apply IH, H2.
+  Qed.
+
+  Lemma default_with_dropped_cases cl cases c w :
+    default_with wn (drop_empty_tail (c_cases compile cl cases)) c w = Out c w None.
+  Proof.
+    apply default_with_cases. pose proof (c_cases_blocks cl cases) as H.
+    destruct (drop_prefix (c_cases compile cl cases)) as [t E]. rewrite E, forallb_app in H.
+    apply andb_true_iff in H. exact (proj1 H).
+  Qed.
+
+  Lemma merge_raws_nil l : merge_raws l = [] -> l = [].
+  Proof.
+    destruct l as [|n l]; [reflexivity|]. destruct n; try discriminate. cbn [merge_raws].
+    destruct (merge_raws l) as [|m r]; [discriminate|]. destruct m; discriminate.
+  Qed.
+
+  Section CasesDrop.
+    Variable L : list (nat * bytes).
+    Variable test : acond -> env -> cres.
+    Variable hit : caseinfo -> ctx -> ctx * bool * option err.
+    Variable check : bool.
+    Variable classic : bool.
+    Variable okc : acond -> Prop.
+    Variable dflt : list ast.
+    Let cc (cnd : acond) : caseinfo := if classic then c_case_classic cnd else c_case_free cnd.
+
+    Hypothesis Hhit : forall cnd c b, okc cnd -> slots_ok c -> cerr c = None -> test cnd (abs c) = CB b ->
+      exists c1, hit (cc cnd) c = (c1, b, None) /\ ceq c1 c /\ cerr c1 = None.
+    Hypothesis Herr : forall cnd c x, okc cnd -> test cnd (abs c) = CErr x ->
+      exists b, hit (cc cnd) c = (c, b, Some x).
+
+    (* the last case of a switch without default: when its body compiles to nothing, the parser
+       leaves no node for it, so its test is never evaluated: the test must not be an error, and
+       the (empty) body must render nothing *)
+    Fixpoint last_quiet (l : list ast) : Prop :=
+      match l with
+      | [] => True
+      | ACase cnd body :: r =>
+        (c_cases compile classic r = [] -> merge_raws (c_list compile body) = [] ->
+         (forall e x, test cnd e <> CErr x) /\ (forall e, seq_with re body e [] false = ([], e, SNone))) /\
+        last_quiet r
+      | _ :: r => last_quiet r
+      end.
+
+    Lemma cases_ref_nocase : forall r e, c_cases compile classic r = [] -> cases_ref re test dflt false r e = ([], e, SNone).
+    Proof.
+      induction r as [|a r IH]; intros e H; [reflexivity|]. destruct a; try (cbn [cases_ref c_cases] in *; apply IH, H).
+      discriminate H.
+    Qed.
+
+    Lemma cases_ok_drop : forall cases, Forall (case_ok L okc) cases -> last_quiet cases ->
+      forall all, (forall c w, default_with wn all c w = Out c w None) ->
+      forall c w, Inv L c -> cerr c = None -> w_fail w = None ->
+      forall o e' s, cases_ref re test dflt false cases (abs c) = (o, e', s) -> sig_dom s ->
+      exists c' w' eo, cases_with wn hit check all (drop_empty_tail (c_cases compile classic cases)) c w = Out c' w' eo /\
+                       wr_bytes w' = wr_bytes w ++ o /\ w_fail w' = None /\
+                       post L s c' e' /\ sig_rel s eo.
+    Proof.
+      induction 1 as [|a cases Ha _ IH]; intros Q all Hall c w HI Hc Hw o e' s E D.
+      - cbn [cases_ref] in E. cbn [c_cases]. rewrite drop_nil. cbn [cases_with]. rewrite Hall.
+        inversion E; subst. exists c, w, None. rewrite app_nil_r. splits; done.
+      - destruct a; try (cbn [cases_ref c_cases last_quiet] in *; apply IH; assumption).
+        destruct Ha as [Hok Hb]. cbn [last_quiet] in Q. destruct Q as [Q1 Q2].
+        cbn [cases_ref] in E. cbn [c_cases]. fold (cc c0).
+        set (NB := NBlock BCase (cc c0) (merge_raws (c_list compile body))).
+        (* what evaluating this case's block does, whatever follows it *)
+        assert (STEP : forall rest,
+          (forall c1 w1, Inv L c1 -> cerr c1 = None -> w_fail w1 = None ->
+             forall o1 e1 s1, cases_ref re test dflt false cases (abs c1) = (o1, e1, s1) -> sig_dom s1 ->
+             exists c' w' eo, cases_with wn hit check all rest c1 w1 = Out c' w' eo /\
+                              wr_bytes w' = wr_bytes w1 ++ o1 /\ w_fail w' = None /\ post L s1 c' e1 /\ sig_rel s1 eo) ->
+          exists c' w' eo, cases_with wn hit check all (NB :: rest) c w = Out c' w' eo /\
+                           wr_bytes w' = wr_bytes w ++ o /\ w_fail w' = None /\ post L s c' e' /\ sig_rel s eo).
+        { intros rest HR. unfold NB. cbn [cases_with].
+          destruct (test c0 (abs c)) as [b|x|] eqn:T.
+          - destruct (Hhit c0 c b Hok (Inv_slots L c HI) Hc T) as (c1 & E1 & Qc & C1).
+            rewrite E1. assert (CE : (if check then cerr c1 else None) = None) by (destruct check; [exact C1|reflexivity]).
+            rewrite CE. pose proof (ceq_Inv L c1 c Qc HI) as I1. rewrite <- (ceq_abs c1 c Qc) in E.
+            destruct b; [apply nblock_ref; assumption|apply HR; assumption].
+          - destruct (Herr c0 c x Hok T) as (b & E1). rewrite E1. inversion E; subst.
+            exists c, w, (Some x). rewrite app_nil_r. splits; done.
+          - inversion E; subst. contradiction. }
+        destruct (c_cases compile classic cases) as [|x l'] eqn:CC.
+        + (* the last case *)
+          change [NB] with ([] ++ [NB]). rewrite drop_snoc. unfold NB at 1. cbn [is_empty_block].
+          destruct (merge_raws (c_list compile body)) as [|n0 B0] eqn:EB.
+          * (* no children: no node; the reference evaluates the test and renders nothing *)
+            destruct (Q1 eq_refl eq_refl) as [NE EM]. cbn [cases_with]. rewrite Hall.
+            destruct (test c0 (abs c)) as [[|]|x|] eqn:T.
+            -- rewrite EM in E. inversion E; subst. exists c, w, None. rewrite app_nil_r. splits; done.
+            -- rewrite (cases_ref_nocase cases (abs c) CC) in E. inversion E; subst.
+               exists c, w, None. rewrite app_nil_r. splits; done.
+            -- exfalso. exact (NE _ _ T).
+            -- inversion E; subst. contradiction.
+          * cbn [app]. apply STEP.
+            intros c1 w1 I1 C1 F1 o1 e1 s1 E1 D1. cbn [cases_with]. rewrite Hall.
+            rewrite (cases_ref_nocase cases (abs c1) CC) in E1. inversion E1; subst.
+            exists c1, w1, None. rewrite app_nil_r. splits; done.
+        + rewrite drop_cons by discriminate. apply STEP.
+          intros c1 w1 I1 C1 F1 o1 e1 s1 E1 D1. rewrite <- CC in *. apply IH; assumption.
+    Qed.
+  End CasesDrop.
+
   Definition switch_case_ok (L : list (nat * bytes)) (arg : bytes) (a : ast) : Prop :=
     match a with
     | ACase cnd body => (arg = [] -> is_lc (ac_helper cnd) = false) /\ items_ok false L body
     | _ => True
     end.
 
+  (* the test of a case, by the form of the switch *)
+  Definition switch_test (arg : bytes) : acond -> env -> cres :=
+    match arg with [] => fun cnd e => ref_cond flits e cnd | _ => classic_test arg end.
+
+  (* what the dropped last block must satisfy *)
+  Definition switch_tail_ok (arg : bytes) (cases dflt : list ast) (hd : bool) : Prop :=
+    if hd then merge_raws (c_list compile dflt) = [] -> forall e, seq_with re dflt e [] false = ([], e, SNone)
+    else last_quiet (switch_test arg) (match arg with [] => false | _ => true end) cases.
+
   Theorem switch_ref L arg cases dflt (hd : bool) :
-    Forall (switch_case_ok L arg) cases -> items_ok false L dflt ->
-    node_ref L (NSwitch arg (c_cases compile (match arg with [] => false | _ => true end) cases ++
-                             (if hd then [NBlock BDefault no_case (merge_raws (c_list compile dflt))] else [])))
+    Forall (switch_case_ok L arg) cases -> items_ok false L dflt -> switch_tail_ok arg cases dflt hd ->
+    node_ref L (NSwitch arg (drop_empty_tail
+                               (c_cases compile (match arg with [] => false | _ => true end) cases ++
+                                (if hd then [NBlock BDefault no_case (merge_raws (c_list compile dflt))] else []))))
              (ASwitch arg cases dflt hd).
   Proof.
-    intros Hcs Hd c w HI Hw o e' s E D. cbn [ref_eval] in E.
-    set (dtail := if hd then [NBlock BDefault no_case (merge_raws (c_list compile dflt))] else []).
-    set (cl := match arg with [] => false | _ => true end).
-    set (all := c_cases compile cl cases ++ dtail).
-    assert (Hdef : forall c w, Inv L c -> w_fail w = None ->
-      forall o e' s, (if hd then seq_with re dflt (abs c) [] false else ([], abs c, SNone)) = (o, e', s) -> sig_dom s ->
-      exists c' w' eo, default_with wn all c w = Out c' w' eo /\ wr_bytes w' = wr_bytes w ++ o /\ w_fail w' = None /\
-                       post L s c' e' /\ sig_rel s eo).
-    { intros c0 w0 HI0 Hw0 o0 e0 s0 E0 D0. unfold all. rewrite default_skip. unfold dtail. destruct hd.
-      - cbn [default_with]. apply nblock_ref; assumption.
-      - cbn [default_with]. inversion E0; subst. exists c0, w0, None. rewrite app_nil_r. splits; done. }
-    assert (Hdt : forall hit chk c w, cases_with wn hit chk all dtail c w = default_with wn all c w).
-    { intros hit chk c0 w0. unfold dtail. destruct hd; reflexivity. }
+    intros Hcs Hd Ht c w HI Hw o e' s E D. cbn [ref_eval] in E.
+    set (cl := match arg with [] => false | _ => true end) in *.
     assert (HI0 : Inv L (set_cerr None c)) by exact HI.
+    (* the three shapes of the child list *)
+    assert (SH : exists child (dropped : bool),
+      drop_empty_tail (c_cases compile cl cases ++
+                       (if hd then [NBlock BDefault no_case (merge_raws (c_list compile dflt))] else [])) = child /\
+      forall (test : acond -> env -> cres) (hit : caseinfo -> ctx -> ctx * bool * option err) (check : bool) (okc : acond -> Prop),
+        (forall cnd c b, okc cnd -> slots_ok c -> cerr c = None -> test cnd (abs c) = CB b ->
+           exists c1, hit ((if cl then c_case_classic else c_case_free) cnd) c = (c1, b, None) /\ ceq c1 c /\ cerr c1 = None) ->
+        (forall cnd c x, okc cnd -> test cnd (abs c) = CErr x ->
+           exists b, hit ((if cl then c_case_classic else c_case_free) cnd) c = (c, b, Some x)) ->
+        Forall (case_ok L okc) cases ->
+        (hd = false -> last_quiet test cl cases) ->
+        forall c w, Inv L c -> cerr c = None -> w_fail w = None ->
+        forall o e' s, cases_ref re test dflt hd cases (abs c) = (o, e', s) -> sig_dom s ->
+        exists c' w' eo, cases_with wn hit check child child c w = Out c' w' eo /\
+                         wr_bytes w' = wr_bytes w ++ o /\ w_fail w' = None /\ post L s c' e' /\ sig_rel s eo).
+    { destruct hd.
+      - rewrite drop_snoc. cbn [is_empty_block].
+        destruct (merge_raws (c_list compile dflt)) as [|n0 D0] eqn:ED.
+        + (* an empty default leaves no node *)
+          exists (c_cases compile cl cases), true. split; [reflexivity|].
+          intros test hit check okc Hh He Hc _ c1 w1 I1 C1 F1 o1 e1 s1 E1 D1.
+          assert (Hh' : forall cnd c b, okc cnd -> slots_ok c -> cerr c = None -> test cnd (abs c) = CB b ->
+                    exists c1, hit ((if cl then c_case_classic cnd else c_case_free cnd)) c = (c1, b, None) /\ ceq c1 c /\ cerr c1 = None)
+            by (destruct cl; assumption).
+          assert (He' : forall cnd c x, okc cnd -> test cnd (abs c) = CErr x ->
+                    exists b, hit ((if cl then c_case_classic cnd else c_case_free cnd)) c = (c, b, Some x))
+            by (destruct cl; assumption).
+          assert (Hdt : forall c w, cases_with wn hit check (c_cases compile cl cases) [] c w =
+                                    default_with wn (c_cases compile cl cases) c w) by reflexivity.
+          assert (Hdf : forall c w, Inv L c -> w_fail w = None ->
+                    forall o e' s, (if true then seq_with re dflt (abs c) [] false else ([], abs c, SNone)) = (o, e', s) -> sig_dom s ->
+                    exists c' w' eo, default_with wn (c_cases compile cl cases) c w = Out c' w' eo /\
+                                     wr_bytes w' = wr_bytes w ++ o /\ w_fail w' = None /\ post L s c' e' /\ sig_rel s eo).
+          { intros c2 w2 I2 F2 o2 e2 s2 E2 D2. rewrite (Ht ED) in E2. inversion E2; subst.
+            rewrite default_with_cases by apply c_cases_blocks.
+            exists c2, w2, None. rewrite app_nil_r. splits; done. }
+          pose proof (cases_ok L test hit check cl okc (c_cases compile cl cases) [] dflt true Hh' He' Hdt Hdf
+                               cases Hc c1 w1 I1 C1 F1 o1 e1 s1 E1 D1) as G.
+          rewrite app_nil_r in G. exact G.
+        + exists (c_cases compile cl cases ++ [NBlock BDefault no_case (n0 :: D0)]), false. split; [reflexivity|].
+          intros test hit check okc Hh He Hc _ c1 w1 I1 C1 F1 o1 e1 s1 E1 D1.
+          apply (cases_ok L test hit check cl okc _ [NBlock BDefault no_case (n0 :: D0)] dflt true); try assumption.
+          * destruct cl; assumption.
+          * destruct cl; assumption.
+          * reflexivity.
+          * intros c2 w2 I2 F2 o2 e2 s2 E2 D2. rewrite default_skip. cbn [default_with]. rewrite <- ED.
+            apply nblock_ref; assumption.
+      - rewrite app_nil_r. exists (drop_empty_tail (c_cases compile cl cases)), true. split; [reflexivity|].
+        intros test hit check okc Hh He Hc Hq c1 w1 I1 C1 F1 o1 e1 s1 E1 D1.
+        apply (cases_ok_drop L test hit check cl okc dflt); try assumption.
+        + destruct cl; assumption.
+        + destruct cl; assumption.
+        + apply Hq. reflexivity.
+        + intros. apply default_with_dropped_cases. }
+    destruct SH as (child & dropped & -> & K).
     destruct arg as [|a0 ar].
-    - cbn [write_node]. fold dtail. fold cl. fold all.
-      apply (cases_ok L (fun cnd e => ref_cond flits e cnd) (hit_free flits) true false
-                      (fun cnd => is_lc (ac_helper cnd) = false) all dtail dflt hd); try assumption; try reflexivity.
+    - cbn [write_node].
+      apply (K (fun cnd e => ref_cond flits e cnd) (hit_free flits) true (fun cnd => is_lc (ac_helper cnd) = false));
+        try assumption; try reflexivity.
       + intros cnd c0 b Hok Hs0 Hc0 T. apply hit_free_ref; assumption.
       + intros cnd c0 x Hok T. apply hit_free_err; assumption.
-      + apply Hdt.
       + eapply Forall_impl; [|exact Hcs]. intros a Ha. destruct a; try exact I. destruct Ha as [H1 H2]. split; [apply H1; reflexivity|exact H2].
-    - cbn [write_node]. fold dtail. fold cl. fold all.
-      apply (cases_ok L (classic_test (a0 :: ar)) (hit_classic flits (a0 :: ar)) false true
-                      (fun _ => True) all dtail dflt hd); try assumption; try reflexivity.
+      + intros ->. exact Ht.
+    - cbn [write_node].
+      apply (K (classic_test (a0 :: ar)) (hit_classic flits (a0 :: ar)) false (fun _ => True));
+        try assumption; try reflexivity.
       + intros cnd c0 b _ Hs0 Hc0 T. apply hit_classic_ref; assumption.
       + intros cnd c0 x _ T. exfalso. exact (classic_test_not_err _ _ _ _ T).
-      + apply Hdt.
       + eapply Forall_impl; [|exact Hcs]. intros a Ha. destruct a; try exact I. destruct Ha as [H1 H2]. split; [exact I|exact H2].
+      + intros ->. exact Ht.
+  Qed.
+
+  (* ---- the same on the interpreter side alone: what dropping the trailing empty block changes ---- *)
+
+  Definition is_default_block (n : node) : bool := match n with NBlock BDefault _ _ => true | _ => false end.
+
+  Lemma default_with_nodefault : forall l tl c w,
+    forallb (fun n => negb (is_default_block n)) l = true -> default_with wn (l ++ tl) c w = default_with wn tl c w.
+  Proof.
+    induction l as [|n l IH]; intros tl c w H; [reflexivity|]. cbn [forallb] in H. apply andb_true_iff in H. destruct H as [H1 H2].
+    cbn [app default_with]. destruct n; try (apply IH; exact H2). destruct k; try (apply IH; exact H2). discriminate H1.
+  Qed.
+
+  (* the walk over the cases before the trailing block is the same; when none of them hits, the
+     dropped list ends there with no signal, the full list evaluates the trailing block *)
+  Lemma cases_with_drop_empty_tail hit chk pre (B : node) :
+    forallb (fun n => negb (is_default_block n)) pre = true ->
+    forall l c w,
+      cases_with wn hit chk (pre ++ [B]) (l ++ [B]) c w = cases_with wn hit chk pre l c w \/
+      exists c_end, cases_with wn hit chk pre l c w = Out c_end w None /\
+                    cases_with wn hit chk (pre ++ [B]) (l ++ [B]) c w = cases_with wn hit chk (pre ++ [B]) [B] c_end w.
+  Proof.
+    intros ND. induction l as [|n l IH]; intros c w.
+    - right. exists c. split; [|reflexivity]. cbn [cases_with].
+      rewrite <- (app_nil_r pre) at 1. rewrite default_with_nodefault by exact ND. reflexivity.
+    - cbn [app cases_with]. destruct n; try apply IH. destruct k; try apply IH.
+      destruct (hit ci c) as [[c1 h] e]. destruct e; [left; reflexivity|].
+      destruct (if chk then cerr c1 else None); [left; reflexivity|].
+      destruct h; [left; reflexivity|apply IH].
+  Qed.
+
+  (* ... and what evaluating a trailing block WITHOUT children amounts to: nothing is written; the
+     context differs from the one the dropped list ends with only in what the test of a trailing
+     case leaves in Ctx.Err / Ctx.BufB; but an error of that test (or the error register checked
+     by the condition-less form) is returned -- the one observable difference *)
+  Lemma trailing_empty_block hit chk pre k ki c w :
+    forallb (fun n => negb (is_default_block n)) pre = true ->
+    cases_with wn hit chk (pre ++ [NBlock k ki []]) [NBlock k ki []] c w =
+    match k with
+    | BCase =>
+      let '(c1, h, e) := hit ki c in
+      match e with
+      | Some x => Out c1 w (Some x)
+      | None => match (if chk then cerr c1 else None) with
+                | Some x => Out c1 w (Some x)
+                | None => if h then Out (set_cerr None c1) w None else Out c1 w None
+                end
+      end
+    | BDefault => Out (set_cerr None c) w None
+    | _ => Out c w None
+    end.
+  Proof.
+    intros ND. cbn [cases_with].
+    destruct k; try (rewrite default_with_nodefault by exact ND; reflexivity).
+    destruct (hit ki c) as [[c1 h] e]. destruct e; [reflexivity|].
+    destruct (if chk then cerr c1 else None); [reflexivity|]. destruct h; [reflexivity|].
+    cbn [cases_with]. rewrite default_with_nodefault by exact ND. reflexivity.
   Qed.
 End Nodes.
 
